@@ -4,11 +4,16 @@ import os
 
 import numpy as np
 
+import attrlib
 import common
 import writerlib as wl
 from props import c01
 
 LEVEL = "proof"
+
+
+def regenerate(res):
+    attrlib.regenerate(res)
 
 
 def final_hashes(chdir):
@@ -174,6 +179,7 @@ def run(res):
     # ---- parameter mismatch refused, directory untouched
     from props.c05 import tree_hash
     nm = 0
+    decisions = []
     for i in range(12 if res.tier == "quick" else 100):
         cfg = wl.gen_cfg(rng)
         for with_data in (False, True):
@@ -200,16 +206,37 @@ def run(res):
                 nm += 1
                 res.case(("mismatch", cfg.key(), name, with_data))
                 res.count("mismatch:" + name)
+                decisions.append((cfg, c2, name, None))
                 try:
                     w2 = wl.make_writer(c2, chdir)
                     w2.close()
+                    decisions[-1] = (cfg, c2, name, True)
                     res.violation("mismatch-accepted:" + name, "a session with a different channel parameter was accepted",
                                   {"cfg": cfg.as_dict(), "changed": name, "new": c2.as_dict()}, "refused", "accepted")
                 except Exception:  # noqa
-                    pass
+                    decisions[-1] = (cfg, c2, name, False)
                 if tree_hash(chdir) != h0:
                     res.violation("mismatch-touched-directory:" + name, "a refused session changed the channel directory",
                                   {"cfg": cfg.as_dict(), "changed": name}, "untouched", "changed")
+            # an identical writer object (later start) must be accepted
+            c3 = wl.Cfg(cfg.n, cfg.d, cfg.sc, cfg.fc, cfg.start + 100000, cfg.cont, cfg.comp, cfg.cksum, cfg.kind, cfg.size,
+                        cfg.order, cfg.is_complex, cfg.nsub)
+            try:
+                wl.make_writer(c3, chdir).close()
+                decisions.append((cfg, c3, "same", True))
+            except Exception:  # noqa
+                decisions.append((cfg, c3, "same", False))
+                res.violation("same-parameters-refused", "a session with identical channel parameters was refused",
+                              {"cfg": cfg.as_dict()}, "accepted", "refused")
+    # the regenerated comparison table (Gen/AttrTables.v) decides the same way as the real writer
+    outs = common.run_model("attrs", [[3] + attrlib.env(a) + attrlib.env(b) for (a, b, _, _) in decisions])
+    for (a, b, name, acc), out in zip(decisions, outs):
+        res.count("restart-decision:" + ("accepted" if acc else "refused"))
+        if (out[0] == 0) != bool(acc):
+            res.disagree("restart comparison model (regenerated from digital_rf_handle_metadata) vs the real writer",
+                         {"cfg": a.as_dict(), "new": b.as_dict(), "changed": name}, "accepted" if out[0] == 0 else "refused (%d)" % out[0],
+                         "accepted" if acc else "refused")
+            break
     # ---- same-named channel under several top-level directories; a directory may hold several
     #      recording periods (sessions) that surround those of another directory
     for i in range(16 if res.tier == "quick" else 200):
